@@ -8,7 +8,7 @@ use text_utils::data::preprocessing::{preprocessing, Part, PreprocessingFnConfig
 use text_utils::data::{TextDataInfo, TrainData};
 use text_utils::text::{clean, word_boundaries};
 use text_utils::unicode::CharString as CS;
-use text_utils::whitespace::{full, operations, remove, repair, Operation};
+use text_utils::whitespace::{find_substring_ignoring_whitespace, full, operations, remove, repair, Operation};
 
 fn op_code(o: &Operation) -> u64 {
     match o {
@@ -131,6 +131,56 @@ pub fn exec(op: &str, a: &[u64]) -> Result<Outcome, String> {
             let mut o = Outcome::new(ok_str(&out));
             if unmixed(&s, g) {
                 o.check(out == gen::remove_ws(&s), "remove != string without whitespace characters");
+            }
+            Ok(o)
+        }
+        "findsub" => {
+            // find_substring_ignoring_whitespace(s, substring, g): the slice of `s` that equals `substring` up to white
+            // space (used by the substring preprocessing to cut the target to the window of the input)
+            let g = r.bool()?;
+            let t = r.text()?;
+            let u = r.text()?;
+            r.end()?;
+            let (s, sub) = (text_to_string(&t)?, text_to_string(&u)?);
+            if enc_text(&s, g) != enc_text_raw(&t) || enc_text(&sub, g) != enc_text_raw(&u) {
+                return Err("segmentation differs from request".into());
+            }
+            let res = find_substring_ignoring_whitespace(&s, &sub, g);
+            let mut o = match res {
+                Some(m) => {
+                    let off = (m.as_ptr() as usize).wrapping_sub(s.as_ptr() as usize);
+                    if off > s.len() || off + m.len() > s.len() {
+                        return Err("the result is not a slice of s".into());
+                    }
+                    let a = s[..off].chars().count() as u64;
+                    let b = a + m.chars().count() as u64;
+                    Outcome::new(ok([1, a, b]))
+                }
+                None => Outcome::new(ok([0])),
+            };
+            if unmixed(&s, g) && unmixed(&sub, g) {
+                let want = gen::remove_ws(&sub);
+                match res {
+                    Some(m) => {
+                        let off = m.as_ptr() as usize - s.as_ptr() as usize;
+                        o.check(gen::remove_ws(m) == want, "the slice found differs from the substring by more than white space");
+                        o.check(!s[..off].chars().next_back().map(char::is_whitespace).unwrap_or(false), "the slice found is preceded by white space (not the leftmost match)");
+                        o.check(!s[off + m.len()..].chars().next().map(char::is_whitespace).unwrap_or(false), "the slice found is followed by white space");
+                    }
+                    None => {
+                        // no slice of s is the substring up to white space (all slices of a short s).  Only for
+                        // substrings whose characters are single code points: a character of several code points
+                        // must occur in s as a whole (the code points of "B + ZWJ" with a white space between them
+                        // are other characters), which a comparison of strings does not see
+                        // (`C11fs.findSub_complete_partial` and the counterexample beside it)
+                        let idx: Vec<usize> = s.char_indices().map(|x| x.0).chain([s.len()]).collect();
+                        let single = CS::split(&sub, g).all(|c| c.chars().count() == 1);
+                        if idx.len() <= 60 && single {
+                            let found = idx.iter().enumerate().any(|(i, &a)| idx[i..].iter().any(|&b| gen::remove_ws(&s[a..b]) == want));
+                            o.check(!found, "nothing found although a slice of s equals the substring up to white space");
+                        }
+                    }
+                }
             }
             Ok(o)
         }
@@ -496,6 +546,25 @@ pub fn run_c11(ctx: &mut Ctx) {
         let g = ctx.rng.random_bool(0.5);
         for op in ["clean", "wb", "remove", "full"] {
             ctx.case(op, &req_gtext(&s, g));
+        }
+        if i % 3 == 1 {
+            // a slice of the text with another spacing (found), the same with one character changed or appended
+            // (mostly not found), an unrelated text, white space only
+            let chars: Vec<&str> = CS::split(&s, g).collect();
+            let n = chars.len();
+            let (a, b) = if n == 0 { (0, 0) } else { let a = ctx.rng.random_range(0..n); (a, ctx.rng.random_range(a..=n)) };
+            let slice: String = chars[a..b].concat();
+            let sub = match ctx.rng.random_range(0..6) {
+                0 => gen::ws_text(&mut ctx.rng, 6, exotic),
+                1 => [" ", "", "\t \u{3000}"][ctx.rng.random_range(0..3)].to_string(),
+                2 => format!("{}x", respace(&mut ctx.rng, &slice, g)),
+                3 => gen::remove_ws(&slice),
+                _ => respace(&mut ctx.rng, &slice, g),
+            };
+            let mut v = vec![g as u64];
+            v.extend(enc_text(&s, g));
+            v.extend(enc_text(&sub, g));
+            ctx.case("findsub", &v);
         }
         if i % 5 == 2 {
             // both modes back to back on one text of 60-300 bytes with multi-code-point clusters
